@@ -3,6 +3,7 @@
 let () =
   match Array.to_list Sys.argv with
   | [ _; "segments"; path ] -> Drv_segments.run path
+  | [ _; "codec"; path ] -> Drv_codec.run path
   | _ ->
       prerr_endline "usage: driver <component> <ops>";
       exit 2
